@@ -228,6 +228,11 @@ pub fn run(args: &Args) -> i32 {
         vec![u32::MAX, 1],
         vec![big, big - 1],
         vec![big, big],
+        vec![1 << 30, big],
+        vec![3 << 29, 1 << 30],
+        vec![1 << 29, 1 << 29, big],
+        vec![1 << 30, 5, big, 0],
+        vec![7, 1 << 31, 1 << 30, 3, 0],
         vec![1, 2, 3],
         vec![0, 0, 7],
         vec![5, 0, 1],
